@@ -223,7 +223,13 @@ where
 		};
 
 		// write the output representing our change
-		for (id, _, _) in &context.get_outputs() {
+		for (id, mmr_index, _) in &context.get_outputs() {
+			// an output that is on record already is the invoiced output of an invoice this
+			// wallet pays to itself (the invoice's context was merged into this one): the
+			// invoice's own entry, under its own account, accounts for it
+			if batch.get(id, mmr_index).is_ok() {
+				continue;
+			}
 			t.num_outputs += 1;
 			let (commit, change_amount) = output_commits.get(&id).unwrap().clone();
 			t.amount_credited += change_amount;
